@@ -140,6 +140,7 @@ class Recorder:
         self.pairs = []
         self.setups = []
         self.setups_skipped = 0
+        self.couplings = []
 
     def __enter__(self):
         import propka.conformation_container as CC
@@ -155,6 +156,9 @@ class Recorder:
             try:
                 # with common_charge_centre the centres of covalently coupled groups are overwritten after set-up
                 # (set_common_charge_centres): outside the set-up model, counted as skipped
+                cr = coupling_request(conf) if conf.groups else None
+                if cr is not None:
+                    rec.couplings.append((conf.name,) + cr)
                 if getattr(conf.parameters, "common_charge_centre", 0):
                     rec.setups_skipped += 1
                 else:
@@ -229,6 +233,29 @@ def params_dump():
                                                                     P.backbone_reorganisation_list, list(P.ions.keys()))),
         "minBond=%d" % int(P.min_bond_distance_for_hydrogen_bonds), "rp=%s" % ("true" if P.remove_penalised_group else "false"),
         "shared=%s" % ("true" if P.shared_determinants else "false")])
+
+
+def coupling_request(conf):
+    """request for the covalent-coupling model and the real coupling lists (indices into conf.groups); None when an atom's
+    `.group` is not the last group of the conformation built on it (then the model's reading of `atom.group` does not apply)"""
+    atoms = list(conf.atoms)
+    idx = {id(a): i for i, a in enumerate(atoms)}
+    gidx = {id(g): i for i, g in enumerate(conf.groups)}
+    last = {}
+    for i, g in enumerate(conf.groups):
+        last[id(g.atom)] = i
+    for a in atoms:
+        g = getattr(a, "group", None)
+        if g is not None and gidx.get(id(g)) != last.get(id(a)):
+            return None
+    alines = []
+    for a in atoms:
+        # the name field carries the SYBYL type here
+        alines.append("|".join([hx(a.element), hx(a.sybyl_type or ""), hx(""), nats([idx[id(b)] for b in a.bonded_atoms if id(b) in idx]),
+                                "0", "0", "0", str(int(a.res_num)), hx(a.chain_id)]))
+    glines = ["%d|%d" % (idx[id(g.atom)], 1 if g.titratable else 0) for g in conf.groups]
+    real = ";".join(nats([gidx[id(c)] for c in g.covalently_coupled_groups if id(c) in gidx]) for g in conf.groups)
+    return ("setup cov %s %d %s" % (";".join(alines) or "-", int(conf.parameters.coupling_max_number_of_bonds), ";".join(glines) or "-"), real)
 
 
 def check_setups(setups):
@@ -337,6 +364,21 @@ class tie:
         ns, unknown, sbad = check_setups(ssample)
         ctx.count("set-up: groups compared with the Lean model", ns)
         ctx.count("set-up: conformations outside the model (common_charge_centre, unexportable state)", self.rec.setups_skipped)
+        seen3, csample = set(), []
+        for c in self.rec.couplings:
+            if hash(c[1]) not in seen3:
+                seen3.add(hash(c[1]))
+                csample.append(c)
+        csample = csample[:self.limit]
+        cbad = []
+        if csample:
+            couts = common.driver_batch([c[1] for c in csample])
+            cbad = [(c[0], c[2][:80], o[:80]) for c, o in zip(csample, couts) if o != c[2]]
+        ctx.count("coupling: conformations compared with the Lean model", len(csample))
+        ctx.count("coupling: conformations with covalently coupled groups", sum(1 for c in csample if any(x != "-" for x in c[2].split(";"))))
+        ctx.oblige("correspondence: Lean covalent-coupling model (find_covalently_coupled_groups: titratable groups within the configured number of "
+                   "bonds and of equal SYBYL type, coupled in the order the code couples them) = real coupling lists of %d conformations" % len(csample),
+                   not cbad, str(cbad[:2])[:400])
         ctx.oblige("correspondence: Lean set-up model (setup_atoms of every group class, set_center, ring search) = real groups: centre (bit "
                    "patterns) and both interaction-atom lists of %d groups in %d conformations" % (ns, len(ssample)),
                    not sbad, "; ".join("%s %s: %s" % b for b in sbad[:3])[:500])
